@@ -51,8 +51,9 @@ def register(reg):
     FC = "synrbl/SynProcessor/rsmi_comparator.py"
     FK = "synrbl/SynProcessor/check_carbon_balance.py"
     FP = "synrbl/postprocess.py"
-    reg.specfun("DEC", [STR], Ty("map", STR, INT))     # value of RSMIDecomposer.decompose on a side string
-    reg.specfun("CMPD", [COMP, COMP], STR)             # value of RSMIComparator.compare_dicts
+    # DEC / CMPD are the value functions of the (pure, proved) RSMIDecomposer.decompose and RSMIComparator.compare_dicts
+    reg.specfun("DEC", [STR], Ty("map", STR, INT), value_of="RSMIDecomposer.decompose")
+    reg.specfun("CMPD", [COMP, COMP], STR, value_of="RSMIComparator.compare_dicts")
     reg.specfun("CLABEL", [STR], STR)                  # carbon label of a reaction string ('>>', atom 'C')
     reg.classdecl("RSMIDecomposer", {"smiles": VAL, "data": ROWS, "reactant_col": STR, "product_col": STR,
                                      "parallel": BOOL, "n_jobs": VAL, "verbose": VAL})
@@ -70,38 +71,90 @@ def register(reg):
                  modifies=["self"], props=["C01", "C03", "C04"])
     reg.contract(FD, "RSMIDecomposer.data_decomposer",
                  params={"self": Obj("RSMIDecomposer")}, returns=Tuple(List(COMP), List(COMP)), fresh_result=True,
-                 assumed=True,
                  requires=["forall(range(0, len(self.data)), lambda j: self.reactant_col in self.data[j] and self.product_col in self.data[j])"],
                  ensures=["len(result[0]) == len(self.data) and len(result[1]) == len(self.data)",
                           "forall(range(0, len(self.data)), lambda j: same_map(result[0][j], DEC(as_str(self.data[j][self.reactant_col])))"
-                          " and same_map(result[1][j], DEC(as_str(self.data[j][self.product_col]))))"],
-                 note="joblib.Parallel over RSMIDecomposer.decompose is an order-preserving map (result j is decompose of row j's side string)",
-                 props=["C01", "C03", "C04"])
+                          " and same_map(result[1][j], DEC(as_str(self.data[j][self.product_col]))))",
+                          # no zero count is stored (precondition of compare_dicts)
+                          "forall(range(0, len(self.data)), lambda j: forall(STR, lambda k: implies(k in result[0][j], result[0][j][k] != 0)))",
+                          "forall(range(0, len(self.data)), lambda j: forall(STR, lambda k: implies(k in result[1][j], result[1][j][k] != 0)))"],
+                 note="proved from the contract of decompose; joblib.Parallel is read as an order-preserving map",
+                 props=["C01", "C03", "C04", "C07", "C14"])
     reg.contract(FC, "RSMIComparator.__init__",
                  params={"self": Obj("RSMIComparator"), "reactants": List(COMP), "products": List(COMP), "n_jobs": VAL, "verbose": VAL},
                  ensures=["self.reactants is reactants and self.products is products"],
                  modifies=["self"], props=["C01", "C03", "C04"])
     reg.contract(FC, "RSMIComparator.run_parallel",
                  params={"self": Obj("RSMIComparator"), "reactants": List(COMP), "products": List(COMP)},
-                 returns=Tuple(List(STR), List(COMP)), fresh_result=True, assumed=True,
+                 returns=Tuple(List(STR), List(COMP)), fresh_result=True,
+                 requires=["forall(range(0, len(reactants)), lambda j: forall(STR, lambda k: implies(k in reactants[j], reactants[j][k] != 0)))",
+                           "forall(range(0, len(products)), lambda j: forall(STR, lambda k: implies(k in products[j], products[j][k] != 0)))"],
                  ensures=["len(result[0]) == (len(reactants) if len(reactants) <= len(products) else len(products))",
                           "forall(range(0, len(result[0])), lambda j: result[0][j] == CMPD(reactants[j], products[j]))"],
-                 note="joblib.Parallel over RSMIComparator.compare_dicts is an order-preserving map over zip(reactants, products)",
-                 props=["C01", "C03", "C04"])
+                 note="proved from the contracts of compare_dicts / diff_dicts; joblib.Parallel is read as an order-preserving map",
+                 props=["C01", "C03", "C04", "C07", "C14"])
     reg.contract(FK, "CheckCarbonBalance.__init__",
                  params={"self": Obj("CheckCarbonBalance"), "reactions_data": ROWS, "rsmi_col": STR, "symbol": STR,
                          "atom_type": STR, "n_jobs": VAL},
                  ensures=["self.reactions_data is reactions_data and self.rsmi_col == rsmi_col and self.symbol == symbol"
                           " and self.atom_type == atom_type"],
                  modifies=["self"], props=["C01", "C03", "C04"])
+    # count_atoms: RDKit parse + atom loop with a memo dictionary (assumed: a function of the string and the atom type; the
+    # memo dictionary is outside the model, i.e. it is assumed to hold only values of this function)
+    reg.specfun("BADSMI", [STR], BOOL)
+    reg.contract(FK, "CheckCarbonBalance.count_atoms", params={"smiles": STR, "atom_type": STR}, returns=INT, pure=True, assumed=True,
+                 raises={"InvalidSmilesException": "BADSMI(smiles)"},
+                 ensures=["result >= 0"],
+                 note="number of atoms of the given symbol in the RDKit molecule of the string (0 if it does not parse); a function of its "
+                      "string arguments - the memo dictionary only stores values of this function",
+                 props=["C03", "C04", "C14"])
+    LBL = "as_str(result['carbon_balance_check'])"
+    RX = "as_str(reaction[rsmi_col])"
+    NCSUM = "sum(F('CheckCarbonBalance.count_atoms', t, atom_type) for t in split_at({RX}, symbol, %d).split('.'))".format(RX=RX)
+    SHAPE_OK = "(rsmi_col in reaction and split_len({RX}, symbol) == 2)".format(RX=RX)
+    reg.contract(
+        FK, "CheckCarbonBalance.process_reaction",
+        params={"reaction": ROW, "rsmi_col": STR, "symbol": STR, "atom_type": STR}, returns=ROW, fresh_result=True, pure=True,
+        requires=["implies(rsmi_col in reaction, is_str(reaction[rsmi_col]))"],
+        ensures=[
+            # a copy of the row with one more column
+            "forall(STR, lambda k: implies(k != 'carbon_balance_check', (k in result) == (k in reaction) and result[k] == reaction[k]))",
+            "'carbon_balance_check' in result and is_str(result['carbon_balance_check'])",
+            "{L} == 'balanced' or {L} == 'products' or {L} == 'reactants' or {L} == 'error'".format(L=LBL),
+            # the label compares the carbon totals of the two sides, molecule by molecule (every occurrence counted) [C03, C14]
+            "implies({L} != 'error', {OK})".format(L=LBL, OK=SHAPE_OK),
+            "implies({L} == 'balanced', {A} == {B})".format(L=LBL, A=NCSUM % 0, B=NCSUM % 1),
+            "implies({L} == 'products', {A} > {B})".format(L=LBL, A=NCSUM % 0, B=NCSUM % 1),
+            "implies({L} == 'reactants', {A} < {B})".format(L=LBL, A=NCSUM % 0, B=NCSUM % 1),
+        ],
+        locals_types={"new_reaction": ROW},
+        props=["C03", "C04", "C14"])
+    def _label_functional(eng):
+        import z3
+        from pyvc.vtypes import Val, S, B
+        dom = z3.Const("lf_dom", z3.ArraySort(S, B))
+        val = z3.Const("lf_val", z3.ArraySort(S, Val))
+        col = z3.Const("lf_col", S)
+        sorts = [z3.ArraySort(S, B), z3.ArraySort(S, Val), S, S, S]
+        fval = eng.uf("F_CheckCarbonBalance_process_reaction_val", sorts, z3.ArraySort(S, Val))
+        cl = eng.uf("CLABEL", [S], S)
+        app = fval(dom, val, col, z3.StringVal(">>"), z3.StringVal("C"))
+        return [z3.ForAll([dom, val, col], app[z3.StringVal("carbon_balance_check")] == Val.VStr(cl(Val.s(val[col]))), patterns=[app])]
+    reg.axiom_z3("carbon-label-functional", _label_functional,
+                 "CLABEL(r) names the 'carbon_balance_check' value process_reaction computes for a row whose reaction string is r (symbol '>>', atom "
+                 "'C'): the label is a function of that string alone, because process_reaction reads its row only through row[rsmi_col] "
+                 "(read-set of the function body checked syntactically on every run: obligation frame:process_reaction-reads)",
+                 only=["CheckCarbonBalance.check_carbon_balance"])
     reg.contract(FK, "CheckCarbonBalance.check_carbon_balance",
-                 params={"self": Obj("CheckCarbonBalance")}, returns=ROWS, fresh_result=True, assumed=True,
-                 requires=["self.symbol == '>>' and self.atom_type == 'C'"],
+                 params={"self": Obj("CheckCarbonBalance")}, returns=ROWS, fresh_result=True,
+                 requires=["self.symbol == '>>' and self.atom_type == 'C'",
+                           "forall(range(0, len(self.reactions_data)), lambda j: implies(self.rsmi_col in self.reactions_data[j], "
+                           "is_str(self.reactions_data[j][self.rsmi_col])))"],
                  ensures=["len(result) == len(self.reactions_data)",
                           "forall(range(0, len(result)), lambda j: fresh(result[j]) and 'carbon_balance_check' in result[j] and "
                           "result[j]['carbon_balance_check'] == CLABEL(as_str(self.reactions_data[j][self.rsmi_col])))"],
-                 note="joblib.Parallel over CheckCarbonBalance.process_reaction is an order-preserving map returning copies of the rows",
-                 props=["C01", "C03", "C04"])
+                 note="proved from the contract of process_reaction; joblib.Parallel is read as an order-preserving map",
+                 props=["C01", "C03", "C04", "C14"])
 
     V = "self"
     COLS = ["self.reaction_col", "self.solved_col", "self.solved_method_col", "self.unbalance_col",
